@@ -41,3 +41,47 @@ Lemma witnesses_not_nice :
   nice nsof0 false init multi_ns_ops = false /\ nice nsof0 false init fc_race_ops = false /\
   nice nsof0 false init stale_ops = false /\ nice nsof0 true init stale_ops = true.
 Proof. vm_compute. repeat split; reflexivity. Qed.
+
+(* ---- eventual clause: after a restart with the backend up, one execution of the stored row
+   delivers the blob (the row can always be handed to the executor: C30_progress_possible) *)
+Definition deliver_ops (ns d : N) : list op :=
+  [ORestart; OSpawnEx 0 ns d; OStep 0 true; OStep 0 true; OStep 0 true; OStep 0 true].
+
+Lemma deliver_from : forall (nsof : N -> N) (fx : bool) s d,
+  Inv nsof s -> kmem (kof nsof d) (s_acked s) = true -> kmem (kof nsof d) (s_back s) = false ->
+  nice nsof fx s (deliver_ops (nsof d) d) = true /\
+  legal (snd (run fx s (deliver_ops (nsof d) d))) = true /\
+  kmem (kof nsof d) (s_back (fst (run fx s (deliver_ops (nsof d) d)))) = true.
+Proof.
+  intros nsof fx s d I A B.
+  pose proof (i_g2 _ _ I _ B A) as T. pose proof (i_g1 _ _ I _ B T) as P.
+  pose proof (persisted_present _ _ P) as Pr. unfold kof in *.
+  unfold deliver_ops, nice, run, step, guard, legal.
+  cbn [with_thr s_thr s_files s_tasks s_back s_acked fst snd tfree tlook].
+  rewrite T. cbn [executing existsb negb andb app tlook N.eqb].
+  cbn [step_thread exec_step with_thr s_thr s_files s_tasks s_back s_acked fst snd tset tlook N.eqb].
+  rewrite B. rewrite andb_false_r.
+  cbn [step_thread exec_step with_thr s_thr s_files s_tasks s_back s_acked fst snd tset tlook N.eqb].
+  rewrite Pr.
+  cbn [step_thread exec_step with_thr s_thr s_files s_tasks s_back s_acked fst snd tset tlook N.eqb].
+  assert (O : (if fx then present d (s_files s) else true) = true) by (destruct fx; auto).
+  rewrite O.
+  cbn [step_thread exec_step with_thr s_thr s_files s_tasks s_back s_acked fst snd tset tlook N.eqb forallb andb].
+  repeat split; auto. apply kmem_add_key_self.
+Qed.
+
+Theorem eventual_partial : forall (nsof : N -> N) (fx : bool) (ops : list op) k,
+  nice nsof fx init ops = true ->
+  kmem k (s_acked (fst (run fx init ops))) = true ->
+  kmem k (s_back (fst (run fx init ops))) = true \/
+  exists more, nice nsof fx (fst (run fx init ops)) more = true /\
+               legal (snd (run fx (fst (run fx init ops)) more)) = true /\
+               kmem k (s_back (fst (run fx (fst (run fx init ops)) more))) = true.
+Proof.
+  intros nsof fx ops k H A.
+  assert (I : Inv nsof (fst (run fx init ops))) by (apply nice_inv; auto; apply inv_init).
+  destruct (kmem k (s_back (fst (run fx init ops)))) eqn:B; auto. right.
+  assert (E : k = kof nsof (snd k)) by (eapply keys_wf_kmem; [apply (i_acked _ _ I)|exact A]).
+  exists (deliver_ops (nsof (snd k)) (snd k)). rewrite E in A, B |- *. cbn [snd kof].
+  apply deliver_from; auto.
+Qed.
